@@ -161,7 +161,10 @@ def pytest_on(root):
 def _one_mutant(m, with_tests):
     root = scratch_tree()
     try:
-        apply_edit(root, m)
+        try:
+            apply_edit(root, m)
+        except Exception as e:  # noqa: BLE001 - one entry that no longer applies must not end the whole self-test
+            return m["id"], None, {pr: (3, [], "CANNOT APPLY: %s" % e) for pr in m["props"]}
         tests_ok = None
         if with_tests:
             tests_ok, _ = pytest_on(root)
@@ -215,7 +218,7 @@ def mutants(ids, kind="mutants", with_tests=False, par=4):
                 print("%-7s %-8s %-4s exit=%d %s %s%s" % (kind, mid, prop_id, rc, "ok " if ok else "FAIL",
                                                           ",".join(classes)[:140], "" if tests_ok is None else "  [pinned suite %s]" % (
                                                               "passes" if tests_ok else "FAILS")))
-                if not ok and rc == 2:
+                if not ok and rc in (2, 3):
                     print(out[-800:])
                 if kind == "neutral" and not ok:
                     print(out[-1200:])
